@@ -25,7 +25,6 @@ func MapKeys[M ~map[K]V, K comparable, V any](m M) []K {
 		return keys
 	}
 	sortKeys(keys)
-	s.Stats.MapRanges++
 	n := len(keys)
 	permuted := false
 	for i := 0; i < n-1; i++ {
@@ -35,9 +34,7 @@ func MapKeys[M ~map[K]V, K comparable, V any](m M) []K {
 			permuted = true
 		}
 	}
-	if permuted {
-		s.Stats.MapPermuted++
-	}
+	s.NoteMapRange(permuted)
 	return keys
 }
 
